@@ -26,6 +26,7 @@ DECIDED = [
     "cannot terminate it; the done-callback does not re-raise task results",
     "R-C16-EAGER (shared): eager responses raise _NoAction after exactly one action",
     "R-C02-CATCH (dependencies): the dependency gathers of Depends.resolve / actor_run do not turn provider failures into values (no return_exceptions), names and values come from one mapping (C18's chain rules reused)",
+    "R-C02-CATCH (total helpers): helpers process() calls outside the outcome try (get_payload) contain no raise of their own",
 ]
 NOT_DECIDED = ["'the worker keeps processing the other messages' as liveness", "actors that swallow CancelledError/BaseException"]
 ASSUMPTIONS = ["exceptions raised by non-call expressions (subscripts, attribute access) are not modelled as edges"]
